@@ -293,6 +293,96 @@ def mixed_streams(case):
   return {'evals': evals, 'nontrivial': True, 'outcome': [fam, case['kind']]}
 
 
+def narrow_labels(case):
+  """Labels stored in a narrow integer type (uint8 / int8 / int16 / uint16: EMNIST-62 and CIFAR-100 labels fit them) with
+  enough classes that label * num_classes leaves the type: every partition of the rows into (padded) batches gives the fold
+  of the single-example statistics, through evaluate_model, ModelEvaluator and metrics.evaluate_batch."""
+  import fedjax
+  import jax.numpy as jnp
+  from fedjax.core import metrics
+  c, ldt = case['C'], case['label_dtype']
+  key = ('narrow', c)
+  if key not in _CACHE:
+    mets = {'cm': metrics.ConfusionMatrix(num_classes=c), 'acc': metrics.Accuracy(), 'ce': metrics.CrossEntropyLoss(),
+            'top2': metrics.TopKAccuracy(k=2), 'pd_cm': metrics.PerDomainMetric(metrics.ConfusionMatrix(num_classes=c), 2)}
+    model = fedjax.Model(init=lambda rng: {}, apply_for_train=lambda p, b, r=None: b['pred'], apply_for_eval=lambda p, b: b['pred'],
+                         train_loss=lambda b, o: jnp.zeros(len(b['y'])), eval_metrics=mets)
+    _CACHE[key] = (mets, model, fedjax.ModelEvaluator(model))
+  mets, model, ev = _CACHE[key]
+  top = min(c - 1, int(np.iinfo(ldt).max))
+  targets = sorted({0, 1, c // 2, top})
+  rows = []
+  for t in targets:
+    for pi in sorted({0, c // 3, c - 2, c - 1}):
+      pred = np.linspace(-1.0, 1.0, c).astype(np.float32)
+      pred[pi] = 3.0
+      rows.append({'y': np.asarray(t, ldt), 'pred': pred, 'domain_id': np.asarray((t + pi) % 2, np.int32)})
+  singles = {k: [_f64(mr.stat_arrays(m.evaluate_example({'y': r['y'], 'domain_id': r['domain_id']}, jnp.asarray(r['pred'])))) for r in rows]
+             for k, m in mets.items()}
+  zeros = {k: _f64(mr.stat_arrays(m.zero())) for k, m in mets.items()}
+  # the single-example confusion matrix itself: one count at (target, argmax)
+  for r, st in zip(rows, singles['cm']):
+    want = np.zeros((c, c))
+    want[int(r['y']), int(np.argmax(r['pred']))] = 1
+    require(np.array_equal(st[1], want), 'confusion matrix of one example with a %s label' % ldt, None, np.argwhere(st[1]).tolist(),
+            case=case)
+  n = len(rows)
+  want = {k: fold(singles[k], zeros[k], range(n)) for k in mets}
+
+  def batch(idxs, pad):
+    rs = [rows[i] for i in idxs] + [rows[(idxs[0] + 1) % n]] * pad
+    b = {'y': np.asarray([r['y'] for r in rs], ldt), 'pred': np.stack([r['pred'] for r in rs]),
+         'domain_id': np.asarray([r['domain_id'] for r in rs], np.int32)}
+    if pad or case.get('always_mask'):
+      b[MASK] = np.asarray([True] * len(idxs) + [False] * pad, bool)
+    return b
+  evals = 0
+  for name, plan_ in (('one batch', [(list(range(n)), 0)]), ('one padded batch', [(list(range(n)), 3)]),
+                      ('batches of 3, last padded', [(list(range(i, min(i + 3, n))), (3 - (min(i + 3, n) - i)) % 3) for i in range(0, n, 3)]),
+                      ('single rows in reverse', [([i], 0) for i in reversed(range(n))]),
+                      ('halves, second first', [(list(range(n // 2, n)), 1), (list(range(n // 2)), 0)])):
+    batches = [batch(i, p) for i, p in plan_]
+    nc = dict(case, plan=name)
+    res = fedjax.evaluate_model(model, {}, batches)
+    got_ev = dict(ev.evaluate_global_params({}, [(b'c', batches)]))[b'c']
+    for k in mets:
+      _cmp_result(k, res[k], want[k], 'evaluate_model with %s labels (%s)' % (ldt, name), nc)
+      _cmp_result(k, got_ev[k], want[k], 'ModelEvaluator with %s labels (%s)' % (ldt, name), nc)
+    evals += 2
+  b = batch(list(range(n)), 2)
+  for k, m in mets.items():
+    st = metrics.evaluate_batch(m, {'y': jnp.asarray(b['y']), 'domain_id': jnp.asarray(b['domain_id'])}, jnp.asarray(b['pred']), jnp.asarray(b[MASK]))
+    _cmp_result(k, st.result(), want[k], 'metrics.evaluate_batch with %s labels' % ldt, case)
+    evals += 1
+  return {'evals': evals, 'nontrivial': True, 'outcome': [c, ldt]}
+
+
+def many_batches(case):
+  """One evaluate_model / ModelEvaluator call over MANY batches (counts around powers of two and odd counts): the result
+  is the fold over all of them, whatever strategy merges the per-batch statistics."""
+  import fedjax
+  fam = case['family']
+  specs, mets, model, pool, poison, singles, zeros = family(fam)
+  evals = 0
+  for nb in case['counts']:
+    seq, batches = [], []
+    for j in range(nb):
+      idxs = [(j * 2) % len(pool), (j * 2 + 1 + j // 7) % len(pool)][:1 + (j % 3 != 0)]
+      seq += idxs
+      batches.append(make_batch(pool, poison, idxs, 2 - len(idxs), 'poison'))
+    want = {k: fold(singles[k], zeros[k], seq) for k in mets}
+    nc = dict(case, counts=[nb])
+    res = fedjax.evaluate_model(model, {}, iter(batches))
+    for k in mets:
+      _cmp_result(k, res[k], want[k], 'evaluate_model over %d batches' % nb, nc)
+    if case.get('evaluator'):
+      got = dict(_evaluator(fam, model).evaluate_global_params({}, [(b'c', batches)]))[b'c']
+      for k in mets:
+        _cmp_result(k, got[k], want[k], 'ModelEvaluator over %d batches' % nb, nc)
+    evals += 1
+  return {'evals': evals, 'nontrivial': True, 'outcome': [fam, case['counts']]}
+
+
 def compositions(n):
   """All ways to cut range(n) into consecutive non-empty parts."""
   for cuts in itertools.product((0, 1), repeat=n - 1):
@@ -501,7 +591,7 @@ def pmap_evaluator(case):
   return {'evals': evals, 'nontrivial': True, 'outcome': [fam, ndev]}
 
 
-SUBS = {'mixed_streams': mixed_streams, 'model_replace': model_replace, 'pmap_evaluator': pmap_evaluator, 'batch_level': batch_level, 'partition_level': partition_level, 'monoid': monoid, 'empty': empty}
+SUBS = {'narrow_labels': narrow_labels, 'many_batches': many_batches, 'mixed_streams': mixed_streams, 'model_replace': model_replace, 'pmap_evaluator': pmap_evaluator, 'batch_level': batch_level, 'partition_level': partition_level, 'monoid': monoid, 'empty': empty}
 TIMEOUTS = {k: 900 for k in SUBS}
 
 
@@ -553,6 +643,10 @@ def plan(ctx):
   ctx.pmap('mixed_streams', [{'family': f, 'kind': k} for f in ('cls', 'seq') for k in ('mixed', 'reuse')] +
            [{'family': f, 'kind': 'big', 'rows': r} for f in ('cls', 'seq') for r in ([1023, 1024, 1025], [2048], [3072, 4095]) if th or r != [3072, 4095]],
            chunk=1)
+  ctx.pmap('many_batches', [{'family': f, 'counts': cs, 'evaluator': cs[0] < 200} for f in ('cls', 'seq')
+                            for cs in ([127, 129, 150], [255, 257, 300], [17, 31, 33, 63, 65, 100]) + (([511, 513, 1000], [128, 130, 256]) if th else ())], chunk=1)
+  ctx.pmap('narrow_labels', [{'C': c, 'label_dtype': d} for c in (3, 20, 62, 130) for d in ('uint8', 'int8', 'int16', 'uint16', 'int32')
+                             if c - 1 <= np.iinfo(d).max], chunk=2)
   ctx.pmap('monoid', [{'family': f, 'metric': k} for f in ('cls', 'seq') for k in FAMILIES[f][0]()], chunk=2)
   ctx.pmap('model_replace', [{'family': f} for f in ('cls', 'seq')], chunk=1)
   ctx.pmap('pmap_evaluator', [{'family': f, 'devices': d} for f in ('cls', 'seq') for d in ((2, 3, 4) if th else (2, 3))], chunk=1)
